@@ -166,6 +166,18 @@ type ReplayFile struct {
 	} `json:"original_size"`
 	ShrinkSteps int      `json:"shrink_candidates_tried"`
 	Readable    []string `json:"readable,omitempty"`
+	// History is set when the violation depends on state the library kept from earlier runs
+	// of the same process (a package-level cache, counter, ...): the scenario alone does not
+	// reproduce it in a fresh process, the worker's run sequence up to it does.
+	History *RunHistory `json:"history,omitempty"`
+}
+
+// RunHistory names the runs one worker executed, in order: Worker, Worker+Workers, ... LastRun.
+type RunHistory struct {
+	Tier    string `json:"tier"`
+	Worker  int    `json:"worker"`
+	Workers int    `json:"workers"`
+	LastRun uint64 `json:"last_run"`
 }
 
 func WriteReplay(path string, rf *ReplayFile) error {
